@@ -9,7 +9,8 @@ Reqs == JsonDeserialize(IOEnv.REQ_FILE)
 
 \* the gate of request r lies between the smallest and the largest resolution of its minimum
 NeedLo(r) == MaxOfSet({MinOfSet(MinCandidates(r.est, r.alphas[i])) : i \in 1..Len(r.alphas)})
-Window(r) == {n \in (NeedLo(r) - 2)..(NeedLo(r) + 3) : n >= 1} \cup Rng(r.extra)
+\* a repeated id needs two rows
+Window(r) == {n \in (NeedLo(r) - 2)..(NeedLo(r) + 3) : n >= (IF r.dup THEN 2 ELSE 1)} \cup Rng(r.extra)
 
 Init ==
   /\ \E k \in 1..Len(Reqs) : \E n \in Window(Reqs[k]) :
